@@ -20,10 +20,18 @@
                          token k, having filled the response with m  (doneCallback, 175-183).
    The RESPONSE branch is one step: its only access to shared state is the find-and-erase
    section under mutex_; parsing and the closure run on the local copy [out].
-   [step] returns None when the label is not enabled (thread not at that program point) or when
-   it violates a precondition the source states by an assert / a one-shot object's contract:
+   [step] returns None (the label is REJECTED) when the label is not enabled (thread not at that
+   program point) or when it violates a precondition of the API the property is about:
+     - CallMethod with response == NULL            google::protobuf::RpcChannel::CallMethod requires a
+                                                   response object whose descriptor is method->output_type()
+                                                   (service.h; repeated above RpcChannel::CallMethod,
+                                                   RpcChannel.cc:45-49): [in_contract]
      - RESPONSE with neither response nor error    assert, RpcChannel.cc:89
-     - LDone on a token whose closure already ran  (google::protobuf one-shot Closure: deleted by Run) *)
+     - LDone on a token whose closure already ran  (google::protobuf one-shot Closure: deleted by Run)
+   Properties_C19.C19_rejected_iff lists the rejected labels exactly.
+   [step_code] is the same machine WITHOUT the CallMethod precondition: what the code does when it is
+   handed response == NULL all the same.  It is used for the differential runs of out-of-contract
+   calls (observation only, see docs/C19.md); no theorem of the property is stated about it. *)
 From Coq Require Import List ZArith Bool Arith.
 From Coq.Strings Require Import Byte.
 From Muduo Require Import Base_Bytes.
@@ -38,6 +46,13 @@ Definition tok := nat.      (* identity of one server-side doneCallback closure 
 
 (* rpc.proto ErrorCode *)
 Inductive errcode := NO_ERROR | WRONG_PROTO | NO_SERVICE | NO_METHOD | INVALID_REQUEST | INVALID_RESPONSE | TIMEOUT.
+
+(* the enumerator values of rpc.proto (regenerated from rpc.pb.h and compared in C19_GenLink) *)
+Definition errnum (e : errcode) : Z :=
+  match e with
+  | NO_ERROR => 0 | WRONG_PROTO => 1 | NO_SERVICE => 2 | NO_METHOD => 3
+  | INVALID_REQUEST => 4 | INVALID_RESPONSE => 5 | TIMEOUT => 6
+  end.
 
 (* A byte string as protobuf's parser sees it (environment contract, DESIGN 3.4):
    Valid m   = SerializeAsString of the message with content m: ParseFromString succeeds and yields m
@@ -61,6 +76,10 @@ Record call := mkCall {
   c_meth : name;             (* method->name() *)
   c_req : bytes              (* content of *request *)
 }.
+
+(* the documented precondition of google::protobuf::RpcChannel::CallMethod that the model enforces:
+   the caller passes a response object *)
+Definition in_contract (c : call) : bool := c_resp c.
 
 Record rbody := mkBody {     (* the optional fields of a RESPONSE RpcMessage *)
   rb_resp : option payload;  (* has_response / response *)
@@ -196,16 +215,19 @@ Definition complete (c : call) (b : rbody) : list event :=
   else
     if c_done c then [ELeak (c_tag c)] else [].
 
-Definition step (s : state) (l : label) : option (state * list event) :=
+(* [lax] = true: the CallMethod precondition is not enforced (step_code) *)
+Definition step_gen (lax : bool) (s : state) (l : label) : option (state * list event) :=
   match l with
   | LFetch t c =>
-      match tget t (threads s) with
-      | TIdle =>
-          let i := next_id s + 1 in
-          Some (mkState i (outs s) (tset t (TFetched i c) (threads s)) (services s) (next_tok s) (pending s),
-                [EFetch t i (c_tag c)])
-      | _ => None
-      end
+      if lax || in_contract c then
+        match tget t (threads s) with
+        | TIdle =>
+            let i := next_id s + 1 in
+            Some (mkState i (outs s) (tset t (TFetched i c) (threads s)) (services s) (next_tok s) (pending s),
+                  [EFetch t i (c_tag c)])
+        | _ => None
+        end
+      else None
   | LRegister t =>
       match tget t (threads s) with
       | TFetched i c =>
@@ -250,22 +272,28 @@ Definition step (s : state) (l : label) : option (state * list event) :=
   | LOther _ => Some (s, [])
   end.
 
+Definition step : state -> label -> option (state * list event) := step_gen false.
+Definition step_code : state -> label -> option (state * list event) := step_gen true.
+
 (* a history: the steps taken with what each of them did *)
 Definition trace := list (label * list event).
 
-Fixpoint exec (s : state) (ls : list label) : option (state * trace) :=
+Fixpoint exec_gen (lax : bool) (s : state) (ls : list label) : option (state * trace) :=
   match ls with
   | [] => Some (s, [])
   | l :: r =>
-      match step s l with
+      match step_gen lax s l with
       | None => None
       | Some (s', ev) =>
-          match exec s' r with
+          match exec_gen lax s' r with
           | None => None
           | Some (s'', tr) => Some (s'', (l, ev) :: tr)
           end
       end
   end.
+
+Definition exec : state -> list label -> option (state * trace) := exec_gen false.
+Definition exec_code : state -> list label -> option (state * trace) := exec_gen true.
 
 Definition events (tr : trace) : list event := flat_map snd tr.
 
@@ -280,6 +308,8 @@ Definition fetch_tags (ls : list label) : list tag :=
   flat_map (fun l => match l with LFetch _ c => [c_tag c] | _ => [] end) ls.
 Definition fetched_ids (evs : list event) : list Z :=
   flat_map (fun e => match e with EFetch _ i _ => [i] | _ => [] end) evs.
+Definition del_tags (evs : list event) : list tag :=
+  flat_map (fun e => match e with EDelete c => [c] | _ => [] end) evs.
 Definition dispatch_toks (evs : list event) : list tok :=
   flat_map (fun e => match e with EDispatch k _ _ _ _ => [k] | _ => [] end) evs.
 Definition done_toks (ls : list label) : list tok :=
